@@ -1035,8 +1035,9 @@ where
     ) -> impl Iterator<Item = Guard<K, V, LockableLruCacheConfig<Time>, S>> {
         // If `now - duration` is not representable, no entry can have been unlocked for that long.
         let guards = match now.checked_sub(duration) {
-            Some(cutoff) => LockableMapImpl::lock_all_unlocked(this, &move |entry| {
-                let entry = entry.value_raw().expect("There must be a value, otherwise it cannot exist in the map as an 'unlocked' entry");
+            // We have to look at all entries: the LRU order follows the time entries were locked, not the time
+            // they were unlocked, so the entries that were unlocked long enough ago aren't necessarily at the front.
+            Some(cutoff) => LockableMapImpl::lock_all_unlocked(this, &move |entry: &CacheEntry<V>| {
                 entry.last_unlocked <= cutoff
             }),
             None => Vec::new(),
